@@ -1,0 +1,33 @@
+//! Verification seam, compiled only with `--cfg daniel729_chess_verif`.
+//!
+//! `uci.rs`, `search.rs` and `autoplay.rs` take their thread, synchronisation, stdin and
+//! hash-map names from these preludes instead of from `std` when the flag is on. In this
+//! crate the preludes simply hand back the `std` items, so the program is the same with the
+//! flag on or off. The deterministic simulator under /verif mounts the same source files
+//! next to its own `verif_shim` module, whose preludes name simulated threads, a simulated
+//! clock and a simulated stdin instead.
+
+pub mod uci_prelude {
+    pub use std::collections::HashMap;
+    pub use std::io::stdin;
+    pub use std::str::SplitAsciiWhitespace;
+    pub use std::sync::atomic::{AtomicBool, Ordering::Relaxed};
+    pub use std::sync::{Arc, Mutex};
+    pub use std::thread::{self, JoinHandle};
+    pub use std::time::Duration;
+}
+
+pub mod search_prelude {
+    pub use std::collections::HashMap;
+    pub use std::sync::atomic::{AtomicBool, Ordering::Relaxed};
+}
+
+pub mod autoplay_prelude {
+    pub use std::collections::HashMap;
+    pub use std::sync::atomic::{AtomicBool, Ordering::Relaxed};
+    pub use std::sync::Arc;
+    pub use std::time::Duration;
+    // autoplay.rs names `std::thread::{spawn, sleep}` by full path; the simulator's prelude
+    // exports a module called `std` here, which takes precedence over the extern crate.
+    pub use ::std;
+}
